@@ -112,10 +112,29 @@ def literal_layout_family():
     return out
 
 
+def boolean_operand_family():
+    """one and / or with many operands that are not plain names (attributes, calls, comparisons, subscripts): the symbolic simplifier gives such
+    operands placeholder symbols and writes the operands back in the order of those symbols; with enough operands the text is wrapped by the
+    layout stage, so a rule that merely reorders is not recognised as 'nothing changed' by a comparison of texts"""
+    out = []
+    kinds = {"attr": lambda k: f"cfg{k}.enabled_flag", "call": lambda k: f"check_{k}(value)", "cmp": lambda k: f"value.part{k} > {k}", "sub": lambda k: f"table[{k}]", "neg": lambda k: f"not cfg{k}.skip"}
+    for n in (3, 9, 10, 11, 12, 13, 16):
+        for op in ("and", "or"):
+            for kind in ("attr", "cmp", "mixed"):
+                ops = [(kinds[kind] if kind != "mixed" else kinds[list(kinds)[k % len(kinds)]])(k) for k in range(n)]
+                expr = f" {op} ".join(ops)
+                out.append(f"def decide(value, table, *cfgs):\n    ready = {expr}\n    return ready\n\n\nprint(decide)\n")
+                if n in (11, 12):
+                    out.append(f"def decide(value, table, *cfgs):\n    if {expr}:\n        return 1\n    return 0\n\n\nprint(decide)\n")
+                    dup = f" {op} ".join(ops + ops[:2])
+                    out.append(f"def decide(value, table, *cfgs):\n    return {dup}\n\n\nprint(decide)\n")
+    return out
+
+
 # unreachable statements after a return inside nested if blocks: both orientations of the if/else swap were "preferred" (alternated forever)
 TARGETED = TARGETED + ["import sys\n\n\ndef run(a, b, log):\n    if log:\n        if a:\n            if b:\n                return 1\n                print(a)\n                print(b)\n                log(a)\n"
                        "            return 2\n            print(b)\n            print(a)\n            log(b)\n        log(a, b)\n    return 3\n\n\nsys.exit(run(*sys.argv))\n"]
-TARGETED = TARGETED + orientation_family() + fallback_family() + wrapping_family() + literal_layout_family()
+TARGETED = TARGETED + orientation_family() + fallback_family() + wrapping_family() + literal_layout_family() + boolean_operand_family()
 OPTS = [{}, {"safe": True}, {"keep_imports": True}, {"safe": True, "keep_imports": True}, {"max_line_length": 60}, {"max_line_length": 79, "safe": True}]
 N_APPLICATIONS = 6
 BUDGET = 5
